@@ -91,11 +91,11 @@ func init() {
 		Rules:      []string{"R27", "R28", "R38", "R29"},
 		Explain:    "R27 no sequence closure assigns, increments or takes the address of a variable declared outside it, so a second pass starts from the same captured values; R28 every yield call decides a branch whose false outcome reaches the function exit with no further yield call reachable (go/cfg reachability), and no yield is deferred. 12 closures, all yield sites. R38 every yield of TopK/BottomK is dominated by budget left on a per-pass counter; R29 sequences write nothing that outlives a pass; a yield inside a nested closure is reported UNDECIDED.",
 		NotDecided: "Nothing value-level: with the tree unchanged, the yielded elements are those of C02–C05."})
-	registerProp(&propSpec{ID: "C07", Level: "other", DesignRef: "§4 C07",
+	registerProp(&propSpec{ID: "C07", Level: "other", DesignRef: "§4 C07", QuickArchs: []string{"amd64", "386"},
 		Rules:      []string{"R15", "R32", "R05"},
 		Explain:    "Encoder/decoder sibling agreement of the three numeric codecs, per key type and target architecture (constant-folded bits.UintSize branches): R15 the type switches of Transform and Restore have an arm for every term of the constraint's type set; the encoding length equals unsafe.Sizeof of the key type; every encoding/binary call is on BigEndian with the width of the type; the sign-flip constant is exactly 1<<(8W-1) in both directions; float: shift 8W-1, sign constant, the offset is equal in both directions and ≥ 2, and the special codes {NaN→0, -Inf→1, +Inf→2^n-2} form the same table in both directions; R32 every reinterpreting cast is between pointer-free types of fitting size; R05 fixed width (prefix-free, concatenable).",
 		NotDecided: "The sign-magnitude→biased mask arithmetic itself and hence monotonicity/injectivity for every bit pattern: that needs enumeration or a solver, which static analysis excludes."})
-	registerProp(&propSpec{ID: "C10", Level: "other", DesignRef: "§4 C10",
+	registerProp(&propSpec{ID: "C10", Level: "other", DesignRef: "§4 C10", QuickArchs: []string{"amd64", "arm64", "386"},
 		Rules:      []string{"R19", "R09", "R10", "R22", "R20", "R37", "R41", "R43"},
 		Explain:    "R19 every use of a 4-lane SWAR search result as an index is under result < fill count (the search sees all four lanes, occupied or not), and deleteChild – the one unguarded user – is only called for a byte proven registered by findChild on the same reference; R09 the byte→child lookup of each size class and every inlined copy of it agree; R10 constant-range indexes fit [4]/[16]/[48]/[256]; R22 capacity guards equal the array lengths and shrink thresholds fit the smaller class; R20 each architecture sibling of the 16-lane routines (amd64 asm, arm64 asm, portable Go) makes its result depend on keys, fill count and probe byte, compares unsigned, and stores nothing but the result. R37 a class whose deleteChild leaves holes never takes slot childrenLen; R41 every deleteChild path vacates the slot; R43 every addChild path stores one child and bumps the fan-out once.",
 		NotDecided: "The SWAR/SIMD bit arithmetic (2^40 / 2^140 inputs): that insertPosNode4/16 return the sorted position and searchNode4 the first matching lane."})
